@@ -348,6 +348,7 @@ def build():
     e.rewrite_re('R8', r'CircuitBuilderError::MissingOutput', 'CircuitBuilderError::missing_output()', min_count=0)
     e.rewrite_re('R5', r'for _ in 0\.\.\(step - 1\) \{', 'for rp_ in 0..(step - 1) {', min_count=0)
     e.rewrite_re('R7', r'Some\(injected_digest\)', 'Some(injected_digest.as_slice())', min_count=0)
+    e.erase_struct_error('CircuitBuilderError::InvalidDimension', 'CircuitBuilderError::mismatch()')
     unfor_zip_pairs(e)
     e.requires('well_formed_walk', """permutation_config.a4_shape() && schedule@.len() < 0x1000_0000 && old(circuit).has_all(index_bits@) && old(circuit).has_all(leaf_digest@) && old(circuit).has_all(selected_root@)
         && (forall|k: int| 0 <= k < injected_digests@.len() ==> old(circuit).has_all(#[trigger] injected_digests@[k]@))
@@ -356,6 +357,8 @@ def build():
     e.ensures('frame', 'final(circuit).extends(old(circuit))')
     e.ensures('rows_of_the_native_walk', 'ret is Ok ==> final(circuit).a4@ == old(circuit).a4@ + a4_rows(schedule@, old(circuit).vals_of(index_bits@), vals2(old(circuit), injected_digests@), permutation_config, schedule@.len() as int)')
     e.ensures('sibling_handles_are_the_main_rows', 'ret matches Ok(ids) ==> ids@ == a4_ids(old(circuit).a4@.len() as int, schedule@, schedule@.len() as int)')
+    # restated from the property (native compares the whole digest): a cap entry with fewer limbs than a digest must not be accepted with the missing limbs unchecked
+    e.ensures('an_accepted_walk_compares_every_digest_limb_of_the_cap_entry', 'ret is Ok ==> selected_root@.len() == permutation_config.cext')
     e.ensures('recovered_root_is_the_selected_cap_entry', """ret is Ok ==> ({
             let c0 = old(circuit); let n = schedule@.len() as int; let cext = permutation_config.cext as int;
             let outv = if n == 0 { c0.vals_of(leaf_digest@) } else { final(circuit).row@ };
